@@ -47,7 +47,15 @@ def verify_one(job):
             if rp is not None:
                 return rp(ex, ob, ob.model)
             return replay.replay_function(ex, c, qual, ob.model, ex.args0)
+        sel = opts.get('select')
         for ob in obls:
+            if sel is not None and ob.kind == 'proof' and not sel(ob.name):
+                # not part of this property's claim: not solved
+                res['obligations'].append({
+                    'name': ob.name, 'kind': 'skipped', 'status': 'skipped',
+                    'backend': None, 'time': 0.0, 'line': ob.line,
+                    'note': ob.note})
+                continue
             if os.environ.get('PYVC_TRACE'):
                 print('solving', ob.name, file=sys.stderr, flush=True)
             r = solve.solve_isolated(ob, opts.get('second', False), on_sat)
